@@ -750,4 +750,221 @@ theorem findallL_resolves (F : Bool) (root : XVal) (hg : goodV root = true) (sou
     simp at h
     exact recurse_ok F root root hg sought [] 0 false o rfl hr hs h
 
+/-! ### exact results of `findall` (find_first = False) when no `'..'` and no dive is involved -/
+
+/-- the siblings one pass of the `for` loop keeps, with what the continuation `k` reports below
+each of them; `seen` are the siblings already passed (the per-tag index of a sibling is the number
+of earlier siblings with its tag) -/
+def selG (st : Step) (any : Nat) (k : List Str → XVal → List Hit) (passed : List Str) :
+    List Item → List Item → List Hit
+  | _, [] => []
+  | seen, (t, a, v) :: rest =>
+    (if tagTest st t any && idxOk st.idx (countTag t seen) && condHolds st.cond v
+      then k (passed ++ [stepName st t (countTag t seen)]) v else [])
+    ++ selG st any k passed (seen ++ [(t, a, v)]) rest
+
+theorem forLoop_sel (st : Step) (sought passed : List Str) (any : Nat) (hany : any ≠ 1)
+    (k : List Str → XVal → List Hit) (post : List Item) :
+    ∀ (pre : List Item) (found : List Hit) (idxs : List (Str × Nat)),
+    (∀ t, tagTest st t any = true → cnt idxs t = countTag t pre) →
+    (∀ it ∈ post, ∀ passed', recurse false it.2.2 (sought.drop 1) passed' any false
+        = .ok ⟨some (k passed' it.2.2), false⟩) →
+    forLoop st sought passed any (kidFns false post) found idxs false
+      = .ok (.ret (found ++ selG st any k passed pre post) false) := by
+  induction post with
+  | nil => intro pre found idxs _ _; simp [kidFns, forLoop, selG]
+  | cons it post ih =>
+    obtain ⟨t, a, v⟩ := it
+    intro pre found idxs hcnt hk
+    have hkv := hk (t, a, v) (by simp)
+    have hk' : ∀ it ∈ post, ∀ passed', recurse false it.2.2 (sought.drop 1) passed' any false
+        = .ok ⟨some (k passed' it.2.2), false⟩ := fun it hit => hk it (by simp [hit])
+    have hany' : (any == 1) = false := by simp [hany]
+    simp only [kidFns, forLoop, selG]
+    by_cases htt : tagTest st t any = true
+    · have hcnt' : ∀ t', tagTest st t' any = true → cnt (incr idxs t) t' = countTag t' (pre ++ [(t, a, v)]) := by
+        intro t' ht'
+        rw [cnt_incr, countTag_append]
+        by_cases e : t' = t
+        · subst e; simp [hcnt t' ht']
+        · have e' : ¬ (t = t') := fun h => e h.symm
+          simp [e, e', hcnt t' ht']
+      simp only [htt, if_true, Bool.true_and, hcnt t htt]
+      by_cases hc : (idxOk st.idx (countTag t pre) && condHolds st.cond v) = true
+      · simp only [hc, guarded, if_true, hkv, afterCall, hany', Bool.false_eq_true, if_false]
+        rw [ih (pre ++ [(t, a, v)]) _ (incr idxs t) hcnt' hk']
+        simp
+      · simp only [hc, guarded, if_false, hany', Bool.false_eq_true]
+        rw [ih (pre ++ [(t, a, v)]) _ (incr idxs t) hcnt' hk']
+        simp
+    · have hcnt' : ∀ t', tagTest st t' any = true → cnt idxs t' = countTag t' (pre ++ [(t, a, v)]) := by
+        intro t' ht'
+        rw [countTag_append, hcnt t' ht']
+        have : ¬ (t = t') := by intro e; subst e; exact htt ht'
+        simp [this]
+      simp only [htt, Bool.false_and, Bool.false_eq_true, if_false, List.nil_append]
+      exact ih (pre ++ [(t, a, v)]) found idxs hcnt' hk'
+
+/-! #### `**`: every leaf, once, in document order -/
+
+/-- the step appended for the `k`-th sibling with tag `t` when no index was requested -/
+def nameOf (t : Str) (k : Nat) : Str := t ++ (if k != 0 then '[' :: (dec k ++ [']']) else [])
+
+mutual
+/-- the leaves (values that are not node lists) below a value, in document order, each with the
+path `tag`/`tag[k]` … from `passed` down to it -/
+def leavesV (passed : List Str) : XVal → List Hit
+  | .text t => [(passed, .text t)]
+  | .nodes items => leavesI passed [] items
+def leavesI (passed : List Str) : List Item → List Item → List Hit
+  | _, [] => []
+  | seen, (t, a, v) :: rest =>
+    leavesV (passed ++ [nameOf t (countTag t seen)]) v ++ leavesI passed (seen ++ [(t, a, v)]) rest
+end
+
+def stDeep : Step := { tag := star2, idx := none, cond := none }
+
+theorem parseStep_star2 : parseStep star2 = some stDeep := by decide
+
+theorem selG_deep (passed : List Str) (post : List Item) : ∀ (seen : List Item),
+    selG stDeep 2 leavesV passed seen post = leavesI passed seen post := by
+  induction post with
+  | nil => intro seen; simp [selG, leavesI]
+  | cons it post ih =>
+    obtain ⟨t, a, v⟩ := it
+    intro seen
+    have : stepName stDeep t (countTag t seen) = nameOf t (countTag t seen) := by
+      simp [stepName, nameOf, stDeep, idxTruthy]
+    simp only [selG, leavesI, ih, this]
+    simp [tagTest, stDeep, idxOk, condHolds]
+
+theorem iter_deep_leaf (t : Option Str) (kids : List Kid) (passed : List Str) :
+    iter (.text t) kids [] passed 2 [] false = .ok (.ret [(passed, .text t)] false) := by
+  have hne : star2 ≠ dotdot := by decide
+  simp [iter, parseStep_star2, hne, isNonEmptyNodes, isTextV, anyAfter, stDeep]
+
+theorem recurse_text (F : Bool) (t : Option Str) (sought passed : List Str) (any : Nat) (ff : Bool) :
+    recurse F (.text t) sought passed any ff = whileLoop F (.text t) [] passed sought any [] ff := by
+  rw [recurse]
+
+theorem recurse_nodes (F : Bool) (items : List Item) (sought passed : List Str) (any : Nat) (ff : Bool) :
+    recurse F (.nodes items) sought passed any ff
+      = whileLoop F (.nodes items) (kidFns F items) passed sought any [] ff := by
+  rw [recurse]
+
+theorem whileLoop_nil (F : Bool) (v : XVal) (kids : List Kid) (passed : List Str) (any : Nat)
+    (found : List Hit) (ff : Bool) :
+    whileLoop F v kids passed [] any found ff = loopEmpty F v kids passed any found ff := by
+  rw [whileLoop]
+
+mutual
+theorem deep_value : ∀ (v : XVal) (passed : List Str),
+    recurse false v [] passed 2 false = .ok ⟨some (leavesV passed v), false⟩
+  | .text t, passed => by
+    rw [recurse_text, whileLoop_nil, loopEmpty]
+    simp [iter_deep_leaf, leavesV]
+  | .nodes [], passed => by
+    rw [recurse_nodes, whileLoop_nil, loopEmpty]
+    have hne : star2 ≠ dotdot := by decide
+    simp [iter, parseStep_star2, hne, isNonEmptyNodes, isTextV, anyAfter, stDeep, leavesV, leavesI]
+  | .nodes (x :: xs), passed => by
+    rw [recurse_nodes, whileLoop_nil, loopEmpty]
+    have hne : star2 ≠ dotdot := by decide
+    have hfl := forLoop_sel stDeep [] passed 2 (by decide) leavesV (x :: xs) [] [] []
+      (by intro t _; simp [cnt, countTag]) (deep_items (x :: xs))
+    have hany : anyAfter stDeep [] = 2 := by simp [anyAfter, stDeep]
+    simp only [iter, parseStep_star2, isNonEmptyNodes, if_true, hne, if_false, hany]
+    rw [hfl, selG_deep]
+    simp [leavesV]
+theorem deep_items : ∀ (items : List Item), ∀ it ∈ items, ∀ passed',
+    recurse false it.2.2 ([] : List Str) passed' 2 false = .ok ⟨some (leavesV passed' it.2.2), false⟩
+  | [], _, hit, _ => by cases hit
+  | (t, a, v) :: rest, it, hit, passed' => by
+    rcases List.mem_cons.1 hit with h | h
+    · subst h; exact deep_value v passed'
+    · exact deep_items rest it h passed'
+end
+
+theorem whileLoop_ret (F : Bool) (v : XVal) (kids : List Kid) (passed : List Str) (a : Str)
+    (rest : List Str) (any : Nat) (found : List Hit) (ff : Bool) (f : List Hit) (ff' : Bool)
+    (h : iter v kids (a :: rest) passed any found ff = .ok (.ret f ff')) :
+    whileLoop F v kids passed (a :: rest) any found ff = .ok ⟨some f, ff'⟩ := by
+  rw [whileLoop, h]
+
+/-- `findall('**')` (list form `['**']`) -/
+theorem findallL_deep (root : XVal) : findallL false root [star2] = .ok (some (leavesV [] root)) := by
+  have hne : star2 ≠ dotdot := by decide
+  have hany : anyAfter stDeep [star2] = 2 := by simp [anyAfter, stDeep]
+  have hr : recurse false root [star2] [] 0 false = .ok ⟨some (leavesV [] root), false⟩ := by
+    cases root with
+    | text t =>
+      rw [recurse_text]
+      apply whileLoop_ret
+      simp [iter, parseStep_star2, hne, isNonEmptyNodes, isTextV, hany, leavesV]
+    | nodes items =>
+      rw [recurse_nodes]
+      apply whileLoop_ret
+      cases items with
+      | nil => simp [iter, parseStep_star2, hne, isNonEmptyNodes, isTextV, hany, leavesV, leavesI]
+      | cons x xs =>
+        have hfl := forLoop_sel stDeep [star2] [] 2 (by decide) leavesV (x :: xs) [] [] []
+          (by intro t _; simp [cnt, countTag]) (deep_items (x :: xs))
+        have e0 : ¬ ((0 : Nat) = 2) := by decide
+        simp only [iter, e0, if_false, List.headD_cons, parseStep_star2, isNonEmptyNodes, if_true, hne, hany]
+        rw [hfl, selG_deep]
+        simp [leavesV]
+  simp [findallL, hr]
+
+/-! #### expressions of plain steps: names or `*`, optional index, optional `text()` condition -/
+
+/-- `s` is a step the regex reads as `st`, it is not `**…` and not `..` -/
+def Simple (s : Str) (st : Step) : Prop := parseStep s = some st ∧ st.tag ≠ star2 ∧ s ≠ dotdot
+
+inductive AllSimple : List Str → List Step → Prop
+  | nil : AllSimple [] []
+  | cons {s st ss sts} : Simple s st → AllSimple ss sts → AllSimple (s :: ss) (st :: sts)
+
+/-- sibling-filter semantics of an expression of plain steps -/
+def selP : List Step → List Str → XVal → List Hit
+  | [], passed, v => [(passed, v)]
+  | st :: rest, passed, .nodes items => selG st 0 (selP rest) passed [] items
+  | _ :: _, _, .text _ => []
+
+theorem simple_path (ss : List Str) (sts : List Step) (h : AllSimple ss sts) :
+    ∀ (v : XVal) (passed : List Str),
+    recurse false v ss passed 0 false = .ok ⟨some (selP sts passed v), false⟩ := by
+  induction h with
+  | nil =>
+    intro v passed
+    cases v <;> simp [recurse_text, recurse_nodes, whileLoop_nil, loopEmpty, finish, selP]
+  | @cons s st ss sts hs _ ih =>
+    obtain ⟨hp, htag, hdd⟩ := hs
+    have hany : anyAfter st (s :: ss) = 0 := by simp [anyAfter, htag]
+    intro v passed
+    cases v with
+    | text t =>
+      rw [recurse_text]
+      apply whileLoop_ret
+      simp [iter, hp, hdd, isNonEmptyNodes, hany, selP]
+    | nodes items =>
+      rw [recurse_nodes]
+      apply whileLoop_ret
+      cases items with
+      | nil => simp [iter, hp, hdd, isNonEmptyNodes, hany, selP, selG]
+      | cons x xs =>
+        have hfl := forLoop_sel st (s :: ss) passed 0 (by decide) (selP sts) (x :: xs) [] [] []
+          (by intro t _; simp [cnt, countTag]) (by intro it _ passed'; exact ih it.2.2 passed')
+        have e0 : ¬ ((0 : Nat) = 2) := by decide
+        simp only [iter, e0, if_false, List.headD_cons, hp, isNonEmptyNodes, if_true, hdd, hany]
+        rw [hfl]
+        simp [selP]
+
+theorem findallL_simple (root : XVal) (ss : List Str) (sts : List Step)
+    (h : AllSimple ss sts) : findallL false root ss = .ok (some (selP sts [] root)) := by
+  simp [findallL, simple_path ss sts h root []]
+
+theorem tagTest_simple (st : Step) (h : st.tag ≠ star2) (t : Str) :
+    tagTest st t 0 = (t == st.tag || st.tag == star) := by
+  simp [tagTest, h]
+
 end N0.NXml
